@@ -126,6 +126,41 @@ def observe_overview(arg):
     return {"kind": "overview", "cur": cur, "prev": prev, "has_prev": hp, "text": text, "md": md}
 
 
+def observe_overview_cli(arg):
+    """The same pair through `codelimit report [--diff]`: both reports written to disk by ReportWriter and read back by the
+    command.  variant 1: the comparison report carries the identifier of the current one (an edited or regenerated copy)."""
+    import contextlib
+    import os
+    import shutil
+
+    from codelimit.commands.report import report_command
+    from codelimit.common.report.ReportFormat import ReportFormat
+    from codelimit.common.report.ReportWriter import ReportWriter
+
+    from ..common import per_process, scratch_dir
+
+    chunk, variant = arg
+    st = parse_state(chunk)
+    cur, prev, hp = dict(st["cur"]), dict(st["prev"]), bool(st["hasPrev"])
+    rc, rp = build_report(cur), (build_report(prev) if hp else None)
+    if rp is not None and variant == 1:
+        rp.uuid = rc.uuid
+    d = per_process("c18-cli", lambda: scratch_dir("c18")) / "proj"
+    shutil.rmtree(d, ignore_errors=True)
+    (d / ".codelimit_cache").mkdir(parents=True)
+    (d / ".codelimit_cache" / "codelimit.json").write_text(ReportWriter(rc).to_json())
+    if rp is not None:
+        (d / "previous.json").write_text(ReportWriter(rp, pretty_print=False).to_json())
+    os.environ["COLUMNS"] = "400"
+    outs = {}
+    for name, fmt in (("text", ReportFormat.text), ("md", ReportFormat.markdown)):
+        buf = io.StringIO()
+        with contextlib.redirect_stdout(buf):
+            report_command(d, fmt, (d / "previous.json") if rp is not None else None)
+        outs[name] = buf.getvalue()
+    return {"kind": "overview", "cur": cur, "prev": prev, "has_prev": hp, "text": parse_text_overview(outs["text"]), "md": parse_md_overview(outs["md"]), "via": "report_command", "same_uuid": variant == 1}
+
+
 _LINE = re.compile(r"^(?P<path>\S+):(?P<line>\d+):(?P<col>\d+): (?P<len>\d+) (?P<sym>\S) (?P<name>\S+)\s*$")
 
 
@@ -232,6 +267,10 @@ def run(tier: str) -> int:
     fi = [parse_state(c) for c in chunks if c not in set(ov)]
     ov = ov[:: b["stride"]]
     res = pmap(observe_overview, ov, timeout=120, chunk=64)
+    # a sample of the pairs also through the `report` command (files on disk, --diff), the comparison report with its own
+    # identifier and with the identifier of the current report
+    cli = [(c, v) for k, c in enumerate(ov[:: b.get("cli_stride", 7)]) for v in ((0, 1) if "hasPrev = TRUE" in c else (0,))]
+    cres = pmap(observe_overview_cli, cli, timeout=120, chunk=16)
     fjobs = [(st["nfind"], bool(st["full"]), bool(st["repo"]), v) for st in fi for v in range(3)]
     fres = pmap(observe_findings, fjobs, timeout=120, chunk=8)
     events, meta = [], []
@@ -245,19 +284,30 @@ def run(tier: str) -> int:
             events.append({"kind": "overview", "cur": dict(st["cur"]), "prev": dict(st["prev"]), "has_prev": bool(st["hasPrev"]), "text": {"rows": [], "totals": []}, "md": {"rows": [], "totals": []},
                            "exc": r[1] if r[0] == "exc" else "timeout"})
         meta.append(("overview", c))
+    for (c, v), r in zip(cli, cres):
+        if r[0] == "ok":
+            events.append(dict({k: x for k, x in r[1].items() if k not in ("via", "same_uuid")}, exc=""))
+        else:
+            if r[0] == "exc" and r[1] == "ParseError":
+                raise MachineryError(f"overview of the report command could not be parsed back: {r}")
+            st = parse_state(c)
+            events.append({"kind": "overview", "cur": dict(st["cur"]), "prev": dict(st["prev"]), "has_prev": bool(st["hasPrev"]), "text": {"rows": [], "totals": []}, "md": {"rows": [], "totals": []},
+                           "exc": r[1] if r[0] == "exc" else "timeout"})
+        meta.append(("overview-cli", (c, v)))
     for j, r in zip(fjobs, fres):
         if r[0] == "ok":
             events.append(dict(r[1], exc=""))
         else:
             events.append({"kind": "findings", "lengths": [], "full": j[1], "repo": j[2], "text": {"listed": [], "more": 0}, "md": {"listed": [], "more": 0}, "exc": r[1] if r[0] == "exc" else "timeout"})
         meta.append(("findings", j))
-    log(f"[C18] G {m.distinct} states: {len(ov)} report pairs and {len(fjobs)} findings scenarios rendered in text and Markdown, {t.s()}s")
+    log(f"[C18] G {m.distinct} states: {len(ov)} report pairs (+ {len(cli)} through the report command) and {len(fjobs)} findings scenarios rendered in text and Markdown, {t.s()}s")
     rejected = accept(wd, events, mod, consts)
     for k, clause in sorted(rejected.items()):
         ev = events[k]
         if ev["kind"] == "overview":
             shape = sorted({("both" if ev["has_prev"] and ev["prev"][l] != "absent" and ev["cur"][l] != "absent" else "added" if ev["cur"][l] != "absent" and ev["has_prev"] else "cur") for l in LANGS if ev["cur"][l] != "absent"})
-            rep.fail({"clause": clause, "has_previous": ev["has_prev"], "language_kinds": shape}, {"event": ev, "figures": tbl})
+            via = {"via": "report_command", "same_identifier": bool(meta[k][1][1])} if meta[k][0] == "overview-cli" else {}
+            rep.fail(dict({"clause": clause, "has_previous": ev["has_prev"], "language_kinds": shape}, **via), {"event": ev, "figures": tbl, **via})
         else:
             rep.fail({"clause": clause, "full": ev["full"], "repository": ev["repo"], "findings": len([x for x in ev["lengths"] if x > 30])}, {"event": ev, "job": list(meta[k][1])})
     log(f"[C18] A accepted {len(events) - len(rejected)}/{len(events)} renderings, {t.s()}s")
